@@ -35,6 +35,7 @@ CONSTANTS Hashers,      \* subset of {"b256", "b192", "sha3"}
           Ints,         \* the u64 arguments of merge_with_int, as 8-byte little-endian arrays
           Fields,       \* subset of {"f64", "f62", "f128", "t257", "t257r", "t40961r"}
           MaxElems,     \* hash_elements takes 0..MaxElems elements
+          LongElems,    \* ... and these longer element counts (lists crossing 1024 / 2048 serialised bytes)
           Sels          \* set of <<start, stride>>: which pool entries become the coordinates
 
 VARIABLE case
@@ -200,6 +201,8 @@ Init ==
         case = Case("merge_with_int", h, "-", 0, 1, k, NoSel, i)
   \/ \E h \in Hashers, f \in Fields, n \in 0..MaxElems, s \in Sels :
         \E d \in Degrees(f) : case = Case("hash_elements", h, f, d, n, "-", s, <<>>)
+  \/ \E h \in Hashers, f \in Fields, n \in LongElems :
+        \E d \in Degrees(f) : case = Case("hash_elements", h, f, d, n, "-", <<3, 7>>, <<>>)
 
 Next == UNCHANGED vars
 Spec == Init /\ [][Next]_vars
